@@ -188,6 +188,91 @@ Definition locked_refuses (r : atoms) (locked : bool) : bool :=
 Lemma refuse_sweep : fa_atoms (fun r => fa_bool (locked_refuses r)) = true.
 Proof. vm_compute. reflexivity. Qed.
 
+(* pin_auth as a function of the cookie verdict (check_pin_trust): a stale cookie (None) is counted as a
+   failure and the cookie is deleted, whatever else the request carries and also while locked out; a valid
+   cookie authenticates and is re-issued, the counter is not touched; without either, only the PIN entry
+   decides, a refused or failed entry sets no cookie and deletes none *)
+Definition cnt_eqb (a b : cnt_action) : bool :=
+  match a, b with KKeep, KKeep | KReset, KReset | KFail, KFail => true | _, _ => false end.
+
+Definition pin_auth_cookie_ok (r : atoms) (locked : bool) : bool :=
+  implb (reaches_pin_auth r)
+    (match a_pin_trust r with
+     | TNone => outcome_eqb (fst (call r locked)) (OPinAuth false false CkDelete) && cnt_eqb (snd (call r locked)) KFail
+     | TTrue => outcome_eqb (fst (call r locked)) (OPinAuth true false CkSet) && cnt_eqb (snd (call r locked)) KKeep
+     | TFalse =>
+         if locked then outcome_eqb (fst (call r locked)) (OPinAuth false true CkNone) && cnt_eqb (snd (call r locked)) KKeep
+         else if negb (a_pin_present r) then outcome_eqb (fst (call r locked)) (ORaise KeyError) && cnt_eqb (snd (call r locked)) KKeep
+         else if a_pin_matches r then outcome_eqb (fst (call r locked)) (OPinAuth true false CkSet) && cnt_eqb (snd (call r locked)) KReset
+         else outcome_eqb (fst (call r locked)) (OPinAuth false false CkNone) && cnt_eqb (snd (call r locked)) KFail
+     end).
+Lemma pin_auth_cookie_sweep : fa_atoms (fun r => fa_bool (pin_auth_cookie_ok r)) = true.
+Proof. vm_compute. reflexivity. Qed.
+
+Lemma outcome_eqb_true a b : outcome_eqb a b = true -> a = b.
+Proof.
+  destruct a as [| | | | [] | [] | [] [] [] | []], b as [| | | | [] | [] | [] [] [] | []]; cbn; intro H; try discriminate; reflexivity.
+Qed.
+Lemma cnt_eqb_true a b : cnt_eqb a b = true -> a = b.
+Proof. destruct a, b; cbn; intro H; try discriminate; reflexivity. Qed.
+
+Lemma pin_auth_by_cookie r locked : reaches_pin_auth r = true ->
+  match a_pin_trust r with
+  | TNone => call r locked = (OPinAuth false false CkDelete, KFail)
+  | TTrue => call r locked = (OPinAuth true false CkSet, KKeep)
+  | TFalse =>
+      call r locked =
+        if locked then (OPinAuth false true CkNone, KKeep)
+        else if negb (a_pin_present r) then (ORaise KeyError, KKeep)
+        else if a_pin_matches r then (OPinAuth true false CkSet, KReset)
+        else (OPinAuth false false CkNone, KFail)
+  end.
+Proof.
+  intro R. pose proof (sweep_call pin_auth_cookie_ok pin_auth_cookie_sweep r locked) as G. unfold pin_auth_cookie_ok in G.
+  rewrite R in G. cbn [implb] in G.
+  assert (P : forall o k, outcome_eqb (fst (call r locked)) o && cnt_eqb (snd (call r locked)) k = true -> call r locked = (o, k)).
+  { intros o k H. apply andb_prop in H. destruct H as [H1 H2]. apply outcome_eqb_true in H1. apply cnt_eqb_true in H2.
+    destruct (call r locked). cbn [fst snd] in *. subst. reflexivity. }
+  destruct (a_pin_trust r); [apply P; exact G| |apply P; exact G].
+  destruct locked; [apply P; exact G|]. destruct (negb (a_pin_present r)); [apply P; exact G|].
+  destruct (a_pin_matches r); apply P; exact G.
+Qed.
+
+(* the delay: time.sleep is outside the model; its argument is an output.  A counted failure sleeps
+   5 s when more than five failures were counted before it, else 0.5 s; nothing else sleeps - in
+   particular a PIN entry refused because of the lock-out is answered at once *)
+Lemma delay_spec k c : slept k c = match k with KFail => Some (if 5 <? c then 5000 else 500) | _ => None end.
+Proof. destruct k; reflexivity. Qed.
+
+(* configuration flags as dimensions of the sweep *)
+Definition config_ok (r : atoms) (locked : bool) : bool :=
+  (* evalex off: no evaluation, no console page *)
+  implb (negb (a_evalex r)) (match fst (call r locked) with OEval | OConsole _ => false | _ => true end)
+  (* console_path None: no console page *)
+  && implb (negb (a_console_path_set r)) (match fst (call r locked) with OConsole _ => false | _ => true end)
+  (* pin_logging off, or no PIN: printpin logs nothing *)
+  && implb (negb (a_pin_logging r) || a_pin_is_none r) (match fst (call r locked) with OPrintPin true => false | _ => true end).
+Lemma config_sweep : fa_atoms (fun r => fa_bool (config_ok r)) = true.
+Proof. vm_compute. reflexivity. Qed.
+
+Lemma config_step r c :
+  (a_evalex r = false -> match fst (step r c) with OEval | OConsole _ => False | _ => True end) /\
+  (a_console_path_set r = false -> match fst (step r c) with OConsole _ => False | _ => True end) /\
+  (a_pin_logging r = false \/ a_pin_is_none r = true -> fst (step r c) <> OPrintPin true).
+Proof.
+  pose proof (sweep_call config_ok config_sweep r (lock_test c)) as G. unfold config_ok in G.
+  repeat (apply andb_prop in G; destruct G as [G ?]). rewrite step_fst.
+  split; [|split].
+  - intro E. rewrite E in G. cbn [negb implb] in G. destruct (fst (call r (lock_test c))); try exact I; discriminate.
+  - intro E. rewrite E in H0. cbn [negb implb] in H0. destruct (fst (call r (lock_test c))); try exact I; discriminate.
+  - intros E X. rewrite X in H. destruct E as [E|E]; rewrite E in H; cbn [negb orb implb] in H;
+      [|rewrite orb_true_r in H; cbn [implb] in H]; discriminate.
+Qed.
+
+(* pin_security=False (or WERKZEUG_DEBUG_PIN=off): self.pin is None and check_pin_trust is True *)
+Lemma pin_off_trust p : p_pin_is_none p = true -> check_pin_trust p = TTrue.
+Proof. intro H. unfold check_pin_trust. rewrite H. reflexivity. Qed.
+
 (* a correct PIN below the threshold authenticates and resets: the lock-out theorem is not vacuous *)
 Definition right_accepted (r : atoms) (locked : bool) : bool :=
   implb (is_right r && negb locked)
@@ -645,8 +730,6 @@ End Equiv.
 
 
 (* ================================================================== the concrete gate *)
-Section Concrete.
-Variable idna_u : str -> option str.
 
 Lemma opt_eqb_eq a b : opt_eqb a b = true -> a = Some b.
 Proof. destruct a as [x|]; cbn [opt_eqb]; [|discriminate]. intro H. apply list_eqb_eq in H. subst. reflexivity. Qed.
@@ -677,6 +760,110 @@ Proof.
     destruct val; cbn [negb orb]; discriminate.
 Qed.
 
+(* ---- the PIN cookie, for every cookie text *)
+Lemma mem_false_forallb x s : mem x s = false -> forallb (fun c => negb (x =? c)) s = true.
+Proof.
+  unfold mem. induction s as [|a s IH]; cbn [existsb forallb]; intro H; [reflexivity|].
+  apply orb_false_iff in H. destruct H as [H1 H2]. rewrite H1, (IH H2). reflexivity.
+Qed.
+
+Definition mk_pinatoms (cfg : config) (rest : str) (now : Z) (ts : option Z) : pinatoms :=
+  {| p_pin_is_none := match c_pin cfg with None => true | Some _ => false end;
+     p_val_truthy := true; p_bar_in_val := true; p_ts := ts;
+     p_hash_eq := list_eqb rest (c_pin_hash cfg); p_now := now |}.
+
+(* a cookie value with a bar: split at the first one *)
+Lemma pin_atoms_shape cfg q ts_str rest :
+  q_cookie q = Some (ts_str ++ BAR :: rest) -> mem BAR ts_str = false ->
+  pin_atoms cfg q = match parse_int ts_str with
+                    | IOk z => Some (mk_pinatoms cfg rest (q_now q) (Some z))
+                    | IValueError => Some (mk_pinatoms cfg rest (q_now q) None)
+                    | IUnsupported => None
+                    end.
+Proof.
+  intros C M. unfold pin_atoms. rewrite C.
+  rewrite (partition1_app_stop BAR ts_str rest (mem_false_forallb _ _ M)).
+  assert (V : match ts_str ++ BAR :: rest with [] => false | _ :: _ => true end = true) by (destruct ts_str; reflexivity).
+  unfold mk_pinatoms. destruct (parse_int ts_str); try reflexivity; rewrite V; reflexivity.
+Qed.
+
+(* what a cookie carrying another PIN hash looks like: a time stamp that int() accepts, a bar, and
+   anything but hash_pin(pin) after it (further bars included: split("|", 1)) *)
+Definition pin_cookie_stale (cfg : config) (q : request) : Prop :=
+  c_pin cfg <> None /\
+  exists ts_str rest ts, q_cookie q = Some (ts_str ++ BAR :: rest) /\ mem BAR ts_str = false /\
+    parse_int ts_str = IOk ts /\ rest <> c_pin_hash cfg.
+
+Lemma pin_atoms_true_conv cfg q p : pin_atoms cfg q = Some p -> pin_cookie_valid cfg q -> check_pin_trust p = TTrue.
+Proof.
+  intros H [N|[ts_str [ts [C [M [PI T]]]]]].
+  - assert (P : p_pin_is_none p = true).
+    { revert H. unfold pin_atoms. rewrite N. set (val := match q_cookie q with Some v => v | None => [] end).
+      destruct (partition1 BAR val) as [a [b|]];
+        cbv beta iota zeta; [destruct (parse_int a)|]; intro H; try discriminate; injection H as <-; reflexivity. }
+    unfold check_pin_trust. rewrite P. reflexivity.
+  - rewrite (pin_atoms_shape cfg q ts_str _ C M), PI in H. injection H as <-.
+    unfold check_pin_trust, mk_pinatoms. cbn [p_pin_is_none p_val_truthy p_bar_in_val p_ts p_hash_eq p_now].
+    rewrite list_eqb_refl. destruct (c_pin cfg); [|reflexivity]. cbn [negb orb].
+    assert (L : (q_now q - PIN_TIME <? ts)%Z = true) by lia. rewrite L. reflexivity.
+Qed.
+
+Lemma pin_atoms_none_iff cfg q p : pin_atoms cfg q = Some p -> (check_pin_trust p = TNone <-> pin_cookie_stale cfg q).
+Proof.
+  intro H. split.
+  - unfold pin_atoms in H. unfold pin_cookie_stale.
+    set (val := match q_cookie q with Some v => v | None => [] end) in *.
+    destruct (partition1 BAR val) as [ts_str [rest|]] eqn:P.
+    + destruct (parse_int ts_str) as [z| |] eqn:PI; try discriminate; injection H as <-; unfold check_pin_trust;
+        cbn [p_pin_is_none p_val_truthy p_bar_in_val p_ts p_hash_eq p_now].
+      * destruct (c_pin cfg) as [pin|]; [|discriminate].
+        destruct val as [|v0 val'] eqn:V; cbn [negb orb]; [discriminate|].
+        destruct (list_eqb rest (c_pin_hash cfg)) eqn:HE; cbn [negb].
+        -- destruct (q_now q - PIN_TIME <? z)%Z; discriminate.
+        -- intros _. split; [discriminate|]. exists ts_str, rest, z. destruct (partition1_some _ _ _ _ P) as [Hv M].
+           split; [|split; [exact M|split; [exact PI|]]].
+           ++ unfold val in V. destruct (q_cookie q) as [v|]; [|discriminate]. subst v. rewrite Hv. reflexivity.
+           ++ intro. subst rest. rewrite list_eqb_refl in HE. discriminate.
+      * destruct (c_pin cfg); [|discriminate]. destruct val; cbn [negb orb]; discriminate.
+    + injection H as <-. unfold check_pin_trust. cbn [p_pin_is_none p_val_truthy p_bar_in_val p_ts p_hash_eq p_now].
+      destruct (c_pin cfg); [|discriminate]. destruct val; cbn [negb orb]; discriminate.
+  - intros [N [ts_str [rest [ts [C [M [PI NE]]]]]]].
+    rewrite (pin_atoms_shape cfg q ts_str rest C M), PI in H. injection H as <-.
+    unfold check_pin_trust, mk_pinatoms. cbn [p_pin_is_none p_val_truthy p_bar_in_val p_ts p_hash_eq p_now].
+    destruct (c_pin cfg); [|contradiction]. cbn [negb orb].
+    destruct (list_eqb rest (c_pin_hash cfg)) eqn:HE; [apply list_eqb_eq in HE; contradiction|reflexivity].
+Qed.
+
+(* the whole classification: trusted iff valid, None (counted, cookie deleted) iff stale, False otherwise *)
+Lemma pin_cookie_classes cfg q p : pin_atoms cfg q = Some p ->
+  (check_pin_trust p = TTrue <-> pin_cookie_valid cfg q) /\
+  (check_pin_trust p = TNone <-> pin_cookie_stale cfg q) /\
+  (check_pin_trust p = TFalse <-> ~ pin_cookie_valid cfg q /\ ~ pin_cookie_stale cfg q).
+Proof.
+  intro H. pose proof (pin_atoms_none_iff cfg q p H) as S.
+  assert (V : check_pin_trust p = TTrue <-> pin_cookie_valid cfg q)
+    by (split; [apply (pin_atoms_true cfg q p H)|apply (pin_atoms_true_conv cfg q p H)]).
+  split; [exact V|]. split; [exact S|]. split.
+  - intro F. split; intro X; [apply V in X|apply S in X]; rewrite X in F; discriminate.
+  - intros [NV NS]. destruct (check_pin_trust p) eqn:E; [exfalso; apply NV, V; reflexivity|reflexivity|exfalso; apply NS, S; reflexivity].
+Qed.
+
+(* outside the model: only a time stamp field with a non-ASCII character (int() accepts Unicode digits) *)
+Lemma pin_atoms_domain cfg q : pin_atoms cfg q = None ->
+  exists ts_str rest, q_cookie q = Some (ts_str ++ BAR :: rest) /\ mem BAR ts_str = false /\ is_ascii_str ts_str = false.
+Proof.
+  unfold pin_atoms. set (val := match q_cookie q with Some v => v | None => [] end).
+  destruct (partition1 BAR val) as [ts_str [rest|]] eqn:P; [|discriminate].
+  destruct (parse_int ts_str) eqn:PI; try discriminate. intros _.
+  destruct (partition1_some _ _ _ _ P) as [Hv M]. exists ts_str, rest. split; [|split; [exact M|]].
+  - unfold val in Hv. destruct (q_cookie q) as [v|]; [subst v; reflexivity|destruct ts_str; discriminate].
+  - unfold parse_int in PI. destruct (is_ascii_str ts_str); [|reflexivity]. cbn [negb] in PI.
+    destruct (strip ascii_ws ts_str) as [|c r]; [discriminate|].
+    destruct (c =? DASH); [destruct (int_digits r 0 false); discriminate|].
+    destruct (c =? PLUS); [destruct (int_digits r 0 false); discriminate|].
+    destruct (int_digits (c :: r) 0 false); discriminate.
+Qed.
+
 Definition frame_valid (cfg : config) (q : request) : Prop :=
   exists f z, arg_get k_frm (q_args q) = Some f /\ parse_int f = IOk z /\ In z (c_frames cfg).
 
@@ -687,6 +874,9 @@ Proof.
   intro H. injection H as H. apply existsb_exists in H. destruct H as [z' [Hin Hz]]. apply Z.eqb_eq in Hz. subst z'.
   exists f, z. split; [reflexivity|split; [exact PI|exact Hin]].
 Qed.
+
+Section Concrete.
+Variable idna_u : str -> option str.
 
 Lemma gate_concrete cfg q count c s : run idna_u cfg q count = ROut OEval c s ->
   c_evalex cfg = true /\ host_is_trusted idna_u (q_host q) (c_trusted cfg) = Ok true /\
@@ -826,14 +1016,16 @@ End GeneratedTotal.
 Definition served_console (s : dstate) (q : areq) : Prop :=
   exists t, fst (astep s q) = OConsole t /\ a_host_trusted (ar_atoms q) = true /\ a_evalex (ar_atoms q) = true.
 
-Lemma astep_frames s q : ~ In 0%Z (ar_new_frames q) -> In 0%Z (d_frames (snd (astep s q))) ->
-  In 0%Z (d_frames s) \/ served_console s q.
+Lemma zpos_not_zero ids : ~ In 0%Z (map Zpos ids).
+Proof. intro H. apply in_map_iff in H. destruct H as [p [Hp _]]. discriminate. Qed.
+
+Lemma astep_frames s q : In 0%Z (d_frames (snd (astep s q))) -> In 0%Z (d_frames s) \/ served_console s q.
 Proof.
-  intros HN. unfold served_console, astep.
+  unfold served_console, astep.
   pose proof (sweep_call endpoint_req endpoint_sweep (atoms_in s q) (lock_test (d_count s))) as E. unfold endpoint_req in E.
   destruct (call (atoms_in s q) (lock_test (d_count s))) as [o k]. cbn [fst snd d_frames] in *.
   destruct o; cbn [creates_console_frame]; intro H; try (left; exact H).
-  - apply in_app_or in H. destruct H as [H|H]; [contradiction|left; exact H].
+  - apply in_app_or in H. destruct H as [H|H]; [exfalso; exact (zpos_not_zero _ H)|left; exact H].
   - right. exists evalex_trusted. split; [reflexivity|].
     repeat (apply andb_prop in E; destruct E as [E ?]). cbn [atoms_in with_frame a_host_trusted a_evalex] in *.
     split; assumption.
@@ -842,13 +1034,13 @@ Qed.
 Lemma arun_cons s q h : arun s (q :: h) = arun (snd (astep s q)) h.
 Proof. reflexivity. Qed.
 
-Lemma arun_frames h : forall s, (forall q, In q h -> ~ In 0%Z (ar_new_frames q)) -> In 0%Z (d_frames (arun s h)) ->
+Lemma arun_frames h : forall s, In 0%Z (d_frames (arun s h)) ->
   In 0%Z (d_frames s) \/ exists pre q post, h = pre ++ q :: post /\ served_console (arun s pre) q.
 Proof.
-  induction h as [|q h IH]; intros s HN H; [left; exact H|].
+  induction h as [|q h IH]; intros s H; [left; exact H|].
   rewrite arun_cons in H.
-  destruct (IH (snd (astep s q)) (fun x Hx => HN x (or_intror Hx)) H) as [H1|[pre [q' [post [E S]]]]].
-  - destruct (astep_frames s q (HN q (or_introl eq_refl)) H1) as [H2|H2]; [left; exact H2|].
+  destruct (IH (snd (astep s q)) H) as [H1|[pre [q' [post [E S]]]]].
+  - destruct (astep_frames s q H1) as [H2|H2]; [left; exact H2|].
     right. exists [], q, h. split; [reflexivity|exact H2].
   - right. exists (q :: pre), q', post. split; [cbn [app]; rewrite E; reflexivity|]. rewrite arun_cons. exact S.
 Qed.
@@ -856,11 +1048,11 @@ Qed.
 (* evaluation in the console frame (frame 0) is impossible before the console page has been served to
    a trusted Host with evalex on - for every history of requests *)
 Lemma console_eval_needs_page : forall h s q,
-  ~ In 0%Z (d_frames s) -> (forall x, In x h -> ~ In 0%Z (ar_new_frames x)) ->
+  ~ In 0%Z (d_frames s) ->
   ar_frm q = Some 0%Z -> fst (astep (arun s h) q) = OEval ->
   exists pre q' post, h = pre ++ q' :: post /\ served_console (arun s pre) q'.
 Proof.
-  intros h s q H0 HN F E. unfold astep in E.
+  intros h s q H0 F E. unfold astep in E.
   destruct (call (atoms_in (arun s h) q) (lock_test (d_count (arun s h)))) as [o k] eqn:C. cbn [fst] in E. subst o.
   assert (G : fst (call (atoms_in (arun s h) q) (lock_test (d_count (arun s h)))) = OEval) by (rewrite C; reflexivity).
   destruct (gate_abstract _ _ G) as [G1 _]. unfold eval_conj in G1.
@@ -868,13 +1060,13 @@ Proof.
   cbn [atoms_in with_frame a_frame] in *. rewrite F in *. cbn [frame_in] in *.
   match goal with HF : existsb _ _ = true |- _ => apply existsb_exists in HF; destruct HF as [z [Hin Hz]] end.
   apply Z.eqb_eq in Hz. subst z.
-  destruct (arun_frames h s HN Hin) as [X|X]; [contradiction|exact X].
+  destruct (arun_frames h s Hin) as [X|X]; [contradiction|exact X].
 Qed.
 
 Definition ex_console_page : areq :=
   {| ar_atoms := {| a_dbg := false; a_cmd := CNone; a_arg := false; a_secret_ok := false; a_frame := false; a_evalex := true;
                     a_console_path_set := true; a_path_is_console := true; a_host_trusted := true; a_pin_trust := TTrue;
                     a_pin_present := false; a_pin_matches := false; a_pin_logging := true; a_pin_is_none := false |};
-     ar_frm := None; ar_new_frames := [] |}.
-Definition ex_eval_frame0 : areq := {| ar_atoms := ex_eval; ar_frm := Some 0%Z; ar_new_frames := [] |}.
+     ar_frm := None; ar_new_ids := [] |}.
+Definition ex_eval_frame0 : areq := {| ar_atoms := ex_eval; ar_frm := Some 0%Z; ar_new_ids := [] |}.
 Definition st0 : dstate := {| d_count := 0; d_frames := [] |}.
